@@ -17,7 +17,7 @@ import (
 	"symgo/sym"
 )
 
-const repoDir = "/repo"
+var repoDir = "/repo" // SYMGO_REPO overrides it for experiments on scratch worktrees only
 const repoMod = "github.com/cosmos/cosmos-proto"
 
 var verifDir = "/verif"
@@ -28,6 +28,9 @@ func main() {
 	}
 	if d := os.Getenv("VERIF_DIR"); d != "" {
 		verifDir = d
+	}
+	if d := os.Getenv("SYMGO_REPO"); d != "" {
+		repoDir = d
 	}
 	os.Setenv("GOFLAGS", "-mod=mod")
 	os.Setenv("GOPROXY", "off")
@@ -312,6 +315,11 @@ func runCheck(id, tier string, rest []string) int {
 			outcome = "pipeline"
 		} else if u != nil && !*noReplay {
 			outcome = nativeReplay(rep)
+			if strings.Contains(outcome, "symbolic only") {
+				// the harness drives code that Go source cannot reach (an anonymous closure):
+				// confirm against the real program instead
+				outcome = confirmSpecial(id, v)
+			}
 		}
 		rep.NativeOutcome = outcome
 		writeJSON(replayPath, rep)
